@@ -70,6 +70,7 @@ tx_task(void *a)
 static void
 pg_run(Params *p)
 {
+	simnet_sigpipe_fatal(1); // this scenario's raw peer never uses plain write()
 	const Kind &k  = KINDS[p->draw("kind", 0, 3)];
 	int         tr = (int) p->draw("tr", 0, 2); // 0 socket://, 1 tcp, 2 ipc
 	nng_socket  v;
